@@ -805,7 +805,7 @@ def m2(cx):
 
 
 # ------------------------------------------------------------------------------------------ L3
-@rule("L3", ["C05", "C01", "C03"], "planners advance the running offset by slot-rounded child sizes")
+@rule("L3", ["C05", "C01", "C03", "C07"], "planners advance the running offset by slot-rounded child sizes")
 def l3(cx):
     m = cx.m
     planners = [
